@@ -527,7 +527,10 @@ def sparse_indexed_files(rng: random.Random, n: int) -> List[Tuple[str, bytes, b
         px = [good if bad is None or k != 2 else bad for k in range(4)]
         place = rng.choice(["raw", "zlib", "tileset"])
         if place == "tileset":
-            chunks.append(ase.TilesetChunk(id=0, tile_count=2, tile_w=2, tile_h=1, pixels=bytes(px)))
+            # (flag 1: the tileset ALSO links to an external file; its embedded pixels are checked all the same)
+            lk = rng.random() < 0.4
+            chunks.append(ase.TilesetChunk(id=0, flags=(2 | 1 | rng.choice([0, 4])) if lk else 2 | rng.choice([0, 4]), ext=(1, 0) if lk else None,
+                                           tile_count=2, tile_w=2, tile_h=1, pixels=bytes(px)))
             chunks.append(ase.LayerChunk(ltype=2, tileset=0))
             chunks.append(ase.CelChunk(layer=0, ctype_cel=3, w=2, h=2, tiles=[0, 1, 1, 0]))
         else:
@@ -756,6 +759,17 @@ def check_C13(tier: str, seed: int) -> int:
                 fr0 = ase.Frame(chunks=[ase.LayerChunk(name="a"), ase.CelChunk(layer=0, w=1, h=1, pixels=b"\1\2\3\4", ctype_cel=0)], count_mode=mode)
                 fr1 = ase.Frame(chunks=[last] if last is not None else [], count_mode=mode)
                 bases.append(("ending%d_%s" % (k, mode), ase.serialize(ase.Sprite(width=1, height=1, frames=[fr0, fr1]))))
+        # a legacy palette chunk as the very last chunk, behind a new-format palette (it is read and skipped: its bytes must still be there)
+        for k, kindc in enumerate((ase.CT_OLD_PALETTE_04, ase.CT_OLD_PALETTE_11)):
+            fr0 = ase.Frame(chunks=[ase.PaletteChunk(first=0, entries=[(1, 2, 3, 255), (4, 5, 6, 255)]), ase.LayerChunk(name="a"),
+                                    ase.CelChunk(layer=0, w=1, h=1, pixels=b"\1", ctype_cel=0)])
+            fr1 = ase.Frame(chunks=[ase.OldPaletteChunk(kind=kindc, packets=[(0, [(9, 8, 7), (6, 5, 4), (3, 2, 1)])])])
+            bases.append(("ending_oldpal%d" % k, ase.serialize(ase.Sprite(width=1, height=1, depth=8, frames=[fr0, fr1]))))
+        # the header's file-size field pointing at the start of one of the later frames (informational: a prefix stays a prefix)
+        for name, data in list(bases[:8]):
+            starts = [f.offset for f in ase.walk(data) if f.name.endswith(".nbytes")]
+            for fo in starts[1:]:
+                bases.append(("%s:size=%d" % (name, fo), fo.to_bytes(4, "little") + data[4:]))
         # frames whose 32-bit field carries the count while the 16-bit field holds a smaller number (or zero)
         for k in range(6 if tier == "quick" else 40):
             s0 = gen.gen_sprite(rng, max_canvas=4, max_layers=3, max_frames=2, rich=False)
@@ -2108,6 +2122,20 @@ def check_C18(tier: str, seed: int) -> int:
                 else:
                     lines.append("I %s %d %d %d %d %s" % (path, failure, transparent, wd, ht, " ".join(map(str, packed))))
                 meta.append(("I", pal, failure, transparent, q, wd, ht))
+        # a palette of 300 DIFFERENT colours (entries beyond index 255 cannot be addressed and map to the failure index), with lookups and with
+        # an image of 300 x 301 pixels (more than 65536 pixels, a height that is no multiple of 4) over a small palette
+        cols = [((k * 7) & 255, (k * 13 + 5) & 255, k >> 1, 255) for k in range(300)]
+        path = w.put(ase.serialize(ase.Sprite(width=1, height=1, frames=[ase.Frame(chunks=[ase.PaletteChunk(first=0, entries=cols)])])), "pal")
+        pal = {k: c for k, c in enumerate(cols)}
+        q = [cols[k][:3] + (255,) for k in (0, 1, 255, 256, 257, 299)] + [(1, 1, 1, 255), cols[7][:3] + (128,)]
+        lines.append("M %s %d %d %d %s" % (path, 9, 3, len(q), " ".join("%d %d %d %d" % c for c in q)))
+        meta.append(("M", pal, 9, 3, q))
+        small = [(10, 20, 30, 255), (40, 50, 60, 255), (70, 80, 90, 255), (0, 0, 0, 0)]
+        path = w.put(ase.serialize(ase.Sprite(width=1, height=1, frames=[ase.Frame(chunks=[ase.PaletteChunk(first=0, entries=small)])])), "pal")
+        wd, ht = 300, 301
+        q = [small[(x * 3 + y * 5 + (x * y) % 7) % 3][:3] + ((255,) if (x + y) % 11 else (0,)) for y in range(ht) for x in range(wd)]
+        lines.append("I %s %d %d %d %d %s" % (path, 3, -1, wd, ht, " ".join(str(r | g << 8 | b << 16 | a << 24) for r, g, b, a in q)))
+        meta.append(("I", {k: c for k, c in enumerate(small)}, 3, -1, q, wd, ht))
         res = {prof: vplib.run_sharded([vplib.impl_driver(prof), "util"], lines, w.dir, "util_" + prof) for prof in ("release", "dev")}
         mb = vplib.run_sharded([vplib.MODEL_DRIVER, "util"], lines, w.dir, "util_model", model=True)
         corr_fail, direct_fail = [], []
@@ -3037,6 +3065,28 @@ def check_C11(tier: str, seed: int) -> int:
         res = {prof: vplib.impl_observe(prof, paths, w.dir, 1) for prof in ("release", "dev")}
         mb = vplib.model_observe(paths, w.dir, 1)
         corr_fail, direct_fail = [], []
+        # two files whose legacy palette chunks carry the SAME payload under the two chunk kinds (0x0004: 8-bit components, 0x0011: 6-bit
+        # components scaled to 8 bits), loaded one after the other on one thread (A, B, A, ...): each decodes by its own kind
+        pair_paths = []
+        for k in range(12 if tier == "quick" else 100):
+            packets = [(rng.choice([0, 0, 1, 3]), [(rng.randrange(64), rng.randrange(64), rng.randrange(64)) for _ in range(rng.randint(1, 6))]) for _ in range(rng.randint(1, 3))]
+            ab = []
+            for kindc in (ase.CT_OLD_PALETTE_04, ase.CT_OLD_PALETTE_11):
+                fr = ase.Frame(chunks=[ase.OldPaletteChunk(kind=kindc, packets=packets), ase.LayerChunk(name="l")])
+                ab.append(w.put(ase.serialize(ase.Sprite(width=1, height=1, frames=[fr]))))
+            order = ab if k % 2 else ab[::-1]
+            pair_paths += [order[0], order[1], order[0]]
+        pseq = vplib.impl_observe("release", pair_paths, w.dir, 1, shards=1, tag="pairs")
+        piso = vplib.impl_observe("release", pair_paths, w.dir, 1, fresh_threads=True, tag="pairs_iso")
+        pmod = vplib.model_observe(pair_paths, w.dir, 1, tag="pairs_model")
+        for k_, (a, b, m_) in enumerate(zip(pseq, piso, pmod)):
+            if a is None or b is None or a[0] != b[0]:
+                direct_fail.append({"what": "a decoded legacy palette depends on the file loaded before it on the same thread (same payload, other chunk kind)",
+                                    "sequence": a[0][:3] if a else None, "isolated": b[0][:3] if b else None, "_data": open(pair_paths[k_], "rb").read()})
+                break
+            d = same_block(b, m_)
+            if d:
+                corr_fail.append({"input": pair_paths[k_], "diff": d, "_data": open(pair_paths[k_], "rb").read()})
         kinds = Counter()
         for i, (kind, s, data, must_fail, note) in enumerate(cases):
             kinds[kind] += 1
